@@ -357,7 +357,7 @@ def rnd_default(rnd, t):
     return rnd.choice([{"k": "enum", "e": "B"}, {"k": "enum", "e": "A"}])
 
 
-PNAMES = ["a", "b", "c", "d", "e", "f", "x1", "flag", "n_2", "val"]
+PNAMES = ["a", "b", "c", "d", "e", "f", "x1", "flag", "n_2", "val", "p", "co"]
 
 
 def rnd_sig(rnd, maxn=6, allow_empty=True):
@@ -527,6 +527,7 @@ def main(argv):
         "grammar: positional-or-keyword and keyword-only parameters of types int, str, bool, Optional[int], List[int], Enum, with/without default (also default None on a non-Optional hint, and a private parameter with default); components: function, list, nested dict, class with 1-3 methods (also inside lists/dicts)",
         "config maps name settings of the sub-command that runs (settings of several sub-commands in one config: only the implicit-selection rule 'first configured choice' is modelled, as an Alg-level choice among the outcomes Ref allows)",
         "error wording and the exception class beyond ArgumentError / SystemExit(2) are not compared",
+        "the option strings of a parser are modelled as in this environment (shtab installed: --print_shtab exists, so --p is a prefix of two options)",
     ]
     scratch = str(common.scratch("c12"))
     try:
@@ -563,7 +564,7 @@ def main(argv):
         for (i, obs, py, err), case in zip(res, cases):
             if obs["out"].startswith("machinery:"):
                 machinery_failure(PID, f"gamma failed on case {case['id']}: {obs['out']}")
-            if canon_outcome(obs) == canon_outcome(case["exp"]) and case["exp"]["out"] != "crash":
+            if canon_outcome(obs) == canon_outcome(case["exp"]) and case["exp"]["out"] != "crash" and not case.get("dev"):
                 n_equal += 1
                 k = nontrivial_key(case, obs)
                 if k:
@@ -577,7 +578,7 @@ def main(argv):
         rep.extra["replay_equal_to_printed_outcome"] = n_equal
 
         # ---- random cases beyond the bounds
-        nrand = 3000 if tier == "quick" else 40000
+        nrand = 2500 if tier == "quick" else 25000
         rcases = [rnd_case(rnd, i) for i in range(nrand)]
         rflav = [flavour_of(i, common.seed() + 17) for i in range(nrand)]
         rres = run_all(rcases, rflav, scratch)
@@ -606,6 +607,7 @@ def main(argv):
             os.unlink(f)
 
         n_rand_ok = 0
+        n_confirm = 0
         for j, (case, obs, py, err, origin, fl) in enumerate(to_validate):
             clauses = rejects.get(j, set())
             if origin == "random":
@@ -616,11 +618,14 @@ def main(argv):
                 if j % max(1, len(to_validate) // 3) == 1:
                     rep.sample({"origin": "random case validated by TLC (Trace_Cli)", "case": case, "observed": obs, "python": py})
             if not clauses:
-                if origin == "replay":
+                if origin == "replay" and canon_outcome(obs) != canon_outcome(case["exp"]):
                     machinery_failure(PID, f"case {case['id']}: the replay differs from the outcome MC_Cli printed but Trace_Cli accepts it (MC and Trace disagree)")
                 continue
             info = {"case": case, "observed": obs, "error_text": err, "failed_clauses": sorted(clauses), "origin": origin, "python": py,
                     "flavour": fl}
+            if "ref-dev-abbrev-as-alg" in clauses:
+                rep.violation("abbrev-ambiguity:sub-option-prefix-of-parent-options", "an option of a sub-command is rejected as ambiguous by an enclosing parser", info)
+                continue
             if "ref-dev-as-alg" in clauses:
                 rep.violation("private-optional-no-default:crash", "a private Optional parameter without default is skipped but Python requires it: TypeError", info)
                 continue
@@ -630,8 +635,10 @@ def main(argv):
                 rep.violation("model:alg-not-ref", "on a recorded case the transcribed algorithm produces an outcome the property does not allow", info)
                 continue
             if "ref" in clauses:
-                # confirm in a fresh process before reporting
-                _, obs2, _, _ = run_isolated(case, fl, scratch)
+                # confirm in a fresh process before reporting (the first 40; a flood of disagreements is not an artefact)
+                n_confirm += 1
+                obs2 = run_isolated(case, fl, scratch)[1] if n_confirm <= 40 else obs
+                info["confirmed_in_fresh_process"] = n_confirm <= 40
                 if canon_outcome(obs2) != canon_outcome(obs):
                     info["isolated_rerun"] = obs2
                     rep.violation("state-dependent:" + violation_key(case, obs, "?"),
